@@ -298,6 +298,8 @@ def run(ctx):
     for line, ri, rm in zip(use_lines, ui, um):
         k = ri.split(" ")[0].strip("()")
         dist["use/" + k] += 1
+        if k == "budget":
+            continue      # recording visitor of the harness gave up (> 2M recorded elements): skipped, counted in the distribution
         if k not in ("ok", "err"):
             violations.append({"impl_case": line, "what": "using a frozen built schema did not return Ok or Err: %s" % ri[:120]})
         elif not C.same_outcome(ri, rm):
